@@ -31,6 +31,14 @@ CHECKS["C18"]=dict(cat="exploration", engine="xplore", design="DESIGN.md §3 C18
    technique="bounded-exhaustive enumeration of tile grids (incl. each of the 4096 single tiles) x flags x optional chunks x versions x conversion pairs through the real WDT/WDL writers, readers and converters, plus all 4096 tile indices for the coordinate maps, judged by field equality, byte-identical second write and an independent chunk walker",
    text="All 4096 tile indices for the coordinate inversion; every grid/flag/version/object-shape combination of the stated axes for WDT and WDL is written, walked by an independent chunk walker (index order, MAOF targets), read back, rewritten and converted between all version pairs.",
    note="Trusted: props/c18/src/walker.rs (independent walker from the format docs). Derived fields (re-detected version, aliased MPHD words) excluded from equality.")
+CHECKS["C13"]=dict(cat="exploration", engine="xplore", design="DESIGN.md §3 C13",
+   technique="deviation-bounded exhaustive enumeration (all models within <=2 (quick) / <=3 (thorough) section deviations of an all-empty and an all-populated baseline x header versions x all 25 conversion pairs; byte-level seed files with key frames; skin and anim layouts) through the real writer/parser/converter, judged by an independent container walker and field decoder, content equality and byte-identical rewrite",
+   text="Every model within the deviation bound over 29 sections x population levels x 8 header numbers, every (from,to) conversion pair, every seed subset, skin layout and anim shape is written, walked by an independent decoder, parsed, rewritten and converted on the real code.",
+   note="Trusted: props/c13 walker/indep/emit modules (independent of the crate). Derived offsets are masked in content comparison.")
+CHECKS["C15"]=dict(cat="exploration", engine="xplore", design="DESIGN.md §3 C15",
+   technique="deviation-bounded exhaustive enumeration (roots over 11 sites and groups over 10 sites within <=3/<=4 deviations of empty and full baselines x 5 versions; all 25 conversion pairs) through the real WmoWriter/WmoParser/parse_wmo/WmoConverter, judged by an independent chunk walker, per-field content equality and byte-identical second write",
+   text="Every root/group within the deviation bound x version, and every conversion pair, is written, walked by an independent chunk walker (tiling, counts, string-offset tables), parsed by both parsers and rewritten on the real code.",
+   note="Trusted: props/c15/src/walk.rs. Only fields with a counterpart in the parsed type are compared; derived fields excluded.")
 NOT_APPLICABLE = {}
 def main():
     checks=[]
